@@ -463,6 +463,24 @@ func runC09(c *Ctx) {
 			}
 		})
 	}
+	// … or relay to one that does: a closure or helper whose only business is to call a touching helper
+	// (func() { ok = c.putLocked(k, v) }) must itself be entered with the lock held
+	for changed := true; changed; {
+		changed = false
+		for _, fn := range fns {
+			if touches[fn] {
+				continue
+			}
+			allInstrs(fn, func(in ssa.Instruction) {
+				if ci, ok := in.(ssa.CallInstruction); ok {
+					if cal := staticCallee(ci.Common()); cal != nil && touches[origin(cal)] && !touches[fn] {
+						touches[fn] = true
+						changed = true
+					}
+				}
+			})
+		}
+	}
 	isCacheMethod := func(fn *ssa.Function) bool {
 		r := fn.Signature.Recv()
 		return r != nil && isNamedOrigin(r.Type(), m.cacheT)
